@@ -382,6 +382,10 @@ func caseGoroutineFrames(tb string) []string {
 				fr[len(fr)-1] += "@" + filepath.Base(loc)
 			}
 			lastLib = false
+			if strings.HasPrefix(ln, "...") && strings.Contains(ln, "frames elided") {
+				fr = append(fr, elidedMark)
+				continue
+			}
 			if ln == "" || ln[0] == '\t' || ln[0] == ' ' || strings.HasPrefix(ln, "goroutine ") || strings.HasPrefix(ln, "created by") {
 				continue
 			}
@@ -449,15 +453,18 @@ func classifyDeath(stderr string) Failure {
 		f.Class = "no diagnostics"
 	}
 	fr := caseGoroutineFrames(stderr)
-	f.Frames = fr
-	if len(fr) > 24 {
-		f.Frames = fr[:24]
+	for _, x := range fr {
+		if x != elidedMark && len(f.Frames) < 24 {
+			f.Frames = append(f.Frames, x)
+		}
 	}
 	if f.Kind == "death-stack" {
-		f.Fn = cycleSet(fr)
+		f.Fn = cycleSet(fr, true)
+	} else if cs := cycleSet(fr, false); f.Kind == "death-exhaust" && cs != "" {
+		f.Fn = cs // memory ran out inside a recursion before the stack limit was reached
 	} else if a, ok := anchorFn(f.Kind, fr); ok && f.Kind == "death-exhaust" {
 		f.Fn = a
-	} else if len(fr) > 0 {
+	} else if len(fr) > 0 && fr[0] != elidedMark {
 		f.Fn = fnOf(fr[0])
 		f.Loc = locOf(fr[0])
 	}
@@ -467,20 +474,29 @@ func classifyDeath(stderr string) Failure {
 	return f
 }
 
+const elidedMark = "(frames elided)"
+
 // cycleSet names a recursion by the sorted set of library functions that occur at least 3 times in the dumped part
 // of the stack.
-func cycleSet(fr []string) string {
+func cycleSet(fr []string, fallback bool) string {
 	cnt := map[string]int{}
 	for _, f := range fr {
+		if f == elidedMark {
+			break // only the innermost part of the stack: the outermost frames are the way into the cycle
+		}
 		cnt[fnOf(f)]++
+	}
+	min := 3
+	if !fallback {
+		min = 8 // exhaustion inside a recursion: demand a long run of repeated frames, deep nesting alone is not a cycle
 	}
 	var set []string
 	for f, n := range cnt {
-		if n >= 3 {
+		if n >= min {
 			set = append(set, f)
 		}
 	}
-	if len(set) == 0 && len(fr) > 0 {
+	if len(set) == 0 && len(fr) > 0 && fallback {
 		return fnOf(fr[0])
 	}
 	sort.Strings(set)
@@ -501,6 +517,9 @@ func hangFailure(samples [][]string) Failure {
 			n++
 		}
 		common = common[:n]
+	}
+	for len(common) > 0 && common[len(common)-1] == elidedMark {
+		common = common[:len(common)-1]
 	}
 	if len(common) > 0 {
 		f.Fn = fnOf(common[len(common)-1])
